@@ -853,7 +853,7 @@ class TimedCompartment(Compartment):
         self.t = tvec
         self.dt = dt
         assert np.all(self.parameter.vals == self.parameter.vals[0]), "Duration parameter value cannot vary over time"
-        duration = self.parameter.vals[0] * self.parameter.timescale * self.parameter.scale_factor
+        duration = self.parameter.vals[0] * self.parameter.timescale  # The parameter's values already include its scale factor (y-factor)
         self._vals = np.empty((_keyring_size(duration, dt), tvec.size), order="F")  # Fortran/column-major order should be faster for summing over lags to get `vals`
         self._vals.fill(np.nan)
 
@@ -1513,7 +1513,7 @@ class TimedLink(Link):
             # Preallocate based on the upstream junction's duration group
             parameter = self.pop.par_lookup[self.source.duration_group]
             assert np.all(parameter.vals == parameter.vals[0]), "Duration parameter value cannot vary over time"
-            duration = parameter.vals[0] * parameter.timescale * parameter.scale_factor
+            duration = parameter.vals[0] * parameter.timescale  # The parameter's values already include its scale factor (y-factor)
             self._vals = np.empty((_keyring_size(duration, dt), tvec.size), order="F")  # Fortran/column-major order should be faster for summing over lags to get `vals`
         self._vals.fill(np.nan)
 
